@@ -3,7 +3,7 @@
    Histories are lists of lop of ANY length, the limit is ANY integer >= 1, any number of blocked producers and waiting
    consumers.  `lq_reach limit ops` is the state of the transcription of limited_queue<T> (as repaired by fa14f83) after
    the history; `lgood` is the invariant every destruction-free history establishes (c10_invariant_reachable). *)
-From Cocls Require Import Base BaseProofs QueueDefs QueueProofs QueueConcProofs QueueOrderProofs.
+From Cocls Require Import Base BaseProofs QueueDefs QueueProofs QueueConcProofs QueueOrderProofs QueueOracleProofs.
 Local Open Scope Z_scope.
 
 (* refinement: for every history whose constructor calls ask for limit >= 1 the model's observations are those of the
@@ -122,6 +122,14 @@ Theorem c10_conc_assignment_in_push_order : forall limit thrs s, (1 <= limit)%Z 
   forall c, map snd (filter (is_c c) (t_alog s)) = got c s ++ map snd (filter (is_c c) (iitems (t_infl s))).
 Proof. intros limit thrs s L. exact (tq_assignment_in_push_order (Some limit) thrs s L). Qed.
 Print Assumptions c10_conc_assignment_in_push_order.
+
+(* the oracle that is run on the implementation's controlled-thread traces (replay of the critical sections on the atomic
+   thread-level FIFO, QueueDefs.tq_oracle) accepts every trace the model itself produces: every case file, any threads
+   (fewer than 777, the marker of the deadlock line), any schedule *)
+Theorem c10_thread_oracle_accepts_model : forall ops,
+  (length (flat_map (t_decode_thr true) ops) < 777)%nat -> tq_oracle true ops (tq_run true ops) = true.
+Proof. exact (tq_oracle_accepts_model true). Qed.
+Print Assumptions c10_thread_oracle_accepts_model.
 
 Example c10_conc_nonvacuous :
   let thrs := flat_map (t_decode_thr true) [[1; 101; 102; 103]; [2; 3]]%Z in
